@@ -48,7 +48,7 @@ FS_TARGETS = [
 RULE = ("stream fault: for each (state, operation) scenario every cut point n = 0..#mutations-1 of the operation "
         "plus the tasks it triggers is enumerated on a forked copy of the DISK data directory: the n-th key-value "
         "mutation (domain kv) or file-system mutation of the repository writers (domain fs) and all later ones fail (crash) "
-        "or only the n-th fails (once, kv); then restart on the same directory, "
+        "or only the n-th fails (once); then restart on the same directory, "
         "load every entity, pump tasks, re-submit the request unless it was acknowledged, compare API views + repository "
         "with the fault-free twin; distinct_nontrivial = distinct (op kind, mode, phase of the cut) classes judged")
 
@@ -145,10 +145,11 @@ def check(ctx):
             names = set(QUICK_ALWAYS) | set(rnd.sample([t[0] for t in TARGETS if t[0] not in QUICK_ALWAYS], 2))
             plan = [(t, "crash", "kv", "all" if t[0] in ("roa", "cainit") else "sample8") for t in TARGETS if t[0] in names]
             plan += [(t, "once", "kv", "sample2") for t in TARGETS if t[0] in names]
-            plan += [(FS_TARGETS[0], "crash", "fs", "all"), (rnd.choice(FS_TARGETS[1:]), "crash", "fs", "sample4")]
+            plan += [(FS_TARGETS[0], "crash", "fs", "all"), (rnd.choice(FS_TARGETS[1:]), "crash", "fs", "sample4"),
+                     (FS_TARGETS[0], "once", "fs", "sample5")]
         else:
             plan = [(t, m, "kv", "all") for t in TARGETS for m in ("crash", "once")]
-            plan += [(t, "crash", "fs", "all") for t in FS_TARGETS]
+            plan += [(t, m, "fs", "all") for t in FS_TARGETS for m in ("crash", "once")]
         texts = [scenario(*p) for p in plan]
         corpus = sorted((vlib.VERIF / "corpus" / "fault").glob("*.ops"))
         texts = [c.read_text() for c in corpus] + texts
@@ -161,7 +162,7 @@ def check(ctx):
     ctx.assumptions += [
         "every single key-value mutation is atomic (temp file + rename on disk; map insert in memory): torn writes are not modelled",
         "cuts are enumerated on the disk back-end (forked data directory); the memory back-end shares the mutation hooks",
-        "file-system cuts (the RRDP/rsync writers) are crashes only: every later file-system mutation fails; the tree on disk is "
+        "file-system cuts (the RRDP/rsync writers): crash = every later file-system mutation fails, once = only that one; the tree on disk is "
         "checked at the cut (notification names existing snapshot/deltas with the stated hashes) and after recovery; the full "
         "RRDP contract per cut (delta chains, retention) is C11's",
         "the generic fault model is instantiated per command from the observed mutation sequence (object-set write, task writes, command record)",
@@ -200,6 +201,6 @@ MANIFEST = {
             "disk are checked at every cut",
     "note": "Proof is about the generic mutation-order model; exhaustive cut enumeration per generated operation validates the model "
             "against the code and searches for failing cuts (it is not the proof). Torn single writes and fsync/durability of the OS are outside; "
-            "file-system cuts are crash-only; scenarios are a fixed catalogue of operation kinds and states.",
+            " scenarios are a fixed catalogue of operation kinds and states.",
     "technique": "Lean 4 proof (generic crash model, all cuts) + exhaustive fault-injection correspondence",
 }
